@@ -8,7 +8,7 @@ EXPLANATION = (
     "each ack's packet id derives from the request's packet id, and the AckLog is the one of the handler's own connection id; "
     "(R-C06-once) on every path through an arm that does not flag a disconnect the ack is registered exactly once (a registration inside a per-filter loop, or a path with none, is a violation), "
     "and every shape of a request packet (with or without MQTT 5 properties) enters its arm; "
-    "(R-C06-flush) every registration is followed by force_ack = true or reschedule(id, IncomingAck), force_ack leads to reschedule(id, FreshData), and consume() flushes the AckLog before forwarding; AckLog::readv has no other caller; "
+    "(R-C06-flush) every registration is followed by force_ack = true or reschedule(id, IncomingAck), force_ack leads to a reschedule of the handler's id whose reason wakes the tracker from Caughtup and InflightFull (per the exhaustive try_ready table), and consume() flushes the AckLog before forwarding; AckLog::readv has no other caller; "
     "(R-C06-qos2) a QoS 2 publish is never appended in the iteration that records it; `recorded` is pushed only by pubrec and popped only by pubcomp; the PubRel arm appends what pubcomp returned. "
     "(R-C06-suback) the SUBACK return code mirrors the filter's QoS and is pushed only after prepare_filter; (R-C06-batch) the router-wide spare batch buffer is emptied before it is stored back, so one connection's leftover requests are never answered to another (shared with R-C14-cache). "
     "NOT decided: ordering of replies across batches and schedules; 'eventually'.")
@@ -344,9 +344,12 @@ def flush(ctx, prog, body):
         return None
     fresh = [(bb, t) for bb, t in resched if reason_of(t) == "FreshData"]
     incoming_ack = {bb for bb, t in resched if reason_of(t) == "IncomingAck"}
-    ctx.floor(rule, "reschedule(.., FreshData) calls", len(fresh), 2)
+    ctx.floor(rule, "reschedule(.., FreshData) calls", len(fresh), 1)
     ctx.floor(rule, "reschedule(.., IncomingAck) calls", len(incoming_ack), 3)
-    for bb, t in fresh:
+    sw0 = packet_switch(body)
+    after_loop = [(bb, t) for bb, t in resched if sw0[0] not in dom.get(bb, ()) or bb not in reachable_after(body, [sw0[0]])]
+    force_call = None
+    for bb, t in [x for x in resched if not dominates(body, sw0[0], x[0])] or after_loop:
         for d in sorted(dom.get(bb, ()), reverse=True):
             bt = body.blocks[d]["t"]
             if bt["k"] == "switch" and bt["otherwise"] != d and dominates(body, bt["otherwise"], bb):
@@ -359,11 +362,24 @@ def flush(ctx, prog, body):
                     ksrc = flatten_src(provenance(body, t["args"][1]))
                     if ksrc and all(x.kind == "param" and x.l == 2 for x in ksrc):
                         force = l
+                        force_call = (bb, t)
                 break
         if force is not None:
             break
     if force is None:
-        raise AnchorMissing("force_ack flag (bool guarding reschedule(id, FreshData)) not found")
+        raise AnchorMissing("force_ack flag (bool guarding the reschedule of the handler's own id after the packet loop) not found")
+    # the reason used there must wake the connection from every pause it can be in while it waits for acks of its own
+    # (Caughtup, InflightFull); a Busy connection is woken by the link's Ready and flushes its AckLog then
+    from .c01 import try_ready_table
+    _, table = try_ready_table(prog)
+    rsn = reason_of(force_call[1])
+    asleep = [st_ for st_ in ("Caughtup", "InflightFull") if table.get((rsn, st_)) != "Ready"]
+    if asleep:
+        ctx.violation(rule, body.id, "replies wait while the connection is paused",
+                      "after registering replies the handler reschedules its connection with ScheduleReason::%s, which does not wake a tracker paused as %s (try_ready table): a client whose outbound window is full gets no PINGRESP / SUBACK / PUBACK until it acknowledges a publish"
+                      % (rsn, "/".join(asleep)), site=body.loc(force_call[1].get("sp")))
+    else:
+        ctx.ok(rule, body.id, "force_ack reschedules with %s, which wakes the tracker from Caughtup and InflightFull" % rsn, site=body.loc(force_call[1].get("sp")))
     force_blocks = const_assign_blocks(body, force, 1)
     disconnect = flag_guarding_call(body, r"Router::handle_disconnection$")
     disc_blocks = const_assign_blocks(body, disconnect, 1) if disconnect is not None else set()
